@@ -441,7 +441,12 @@ func (v *fnVC) applyCall(c *ssa.CallCommon, x *ssa.Call, pos token.Pos, cond T) 
 		}
 	}
 	if v.con != nil {
-		for _, r := range v.con.AtCall[key] {
+		atc := v.con.AtCall[key]
+		if x != nil {
+			// at-call <callee>#<n>: only the n-th call of that callee in this function, in source order
+			atc = append(append([]Clause{}, atc...), v.con.AtCall[fmt.Sprintf("%s#%d", key, v.callOrdinal(key, x))]...)
+		}
+		for _, r := range atc {
 			// caller(x): the caller's variable x as it is at this call
 			env.callerNames = v.namesAt(v.blk)
 			if x != nil {
@@ -1439,4 +1444,21 @@ func (v *fnVC) mapLen(m T, mt *types.Map, snap map[string]T) T {
 		mem = v.memOrEntry(md)
 	}
 	return ite(eq(m, "0"), "0", app(fn, sel(mem, m)))
+}
+
+// callOrdinal numbers the calls of one callee inside the function under check in source order (1-based).
+func (v *fnVC) callOrdinal(key string, x *ssa.Call) int {
+	n := 1
+	for _, b := range v.fn.Blocks {
+		for _, in := range b.Instrs {
+			ci, ok := in.(ssa.CallInstruction)
+			if !ok || in == ssa.Instruction(x) {
+				continue
+			}
+			if _, k, _ := v.calleeKey(ci.Common()); k == key && in.Pos() < x.Pos() {
+				n++
+			}
+		}
+	}
+	return n
 }
